@@ -1080,8 +1080,10 @@ class Model:
             self._nodes, self._vars = deepcopy((self._nodes, self._vars))
 
         for node in self._nodes.values():
-            node._clear_outputs()
+            # raises if the node belongs to another model: must happen before the
+            # node is touched, otherwise the other model's graph is damaged
             node._set_model(self)
+            node._clear_outputs()
 
         for node in self._nodes.values():
             for _input in node.all_input_nodes():
